@@ -69,10 +69,10 @@ MUT_KINDS = ("b58addr", "segwit", "wif", "xkey", "sp")
 # ----------------------------------------------------------------------- plan
 def plan(tier: str, seed: int) -> list[dict]:
     q = tier == "quick"
-    bud = {"_budget_s": 75 if q else 900, "_timeout_s": 500 if q else 2700}
+    bud = {"_budget_s": 100 if q else 1000, "_timeout_s": 600 if q else 2700}
     specs: list[dict] = []
     # (kind, shards, base strings per shard)
-    table = [("b58addr", 2, 90), ("segwit", 2, 70), ("wif", 2, 60), ("xkey", 4, 20), ("sp", 3, 14)] if q else \
+    table = [("b58addr", 2, 90), ("segwit", 2, 70), ("wif", 2, 60), ("xkey", 5, 16), ("sp", 3, 14)] if q else \
             [("b58addr", 3, 900), ("segwit", 3, 700), ("wif", 2, 700), ("xkey", 5, 200), ("sp", 3, 180)]
     for kind, shards, n in table:
         for i in range(shards):
@@ -545,7 +545,8 @@ def judge(j: J, kind: str, s, feature: str = "") -> bool | None:
         else:
             ro = outcome(reencode, j, kind, st, got, net, extra)
             if ro[0] == "raise":
-                ctx.violation(f"{kind}:reencode-raised", f"{raw!r} decoded but writing it back raised {ro[1]!r}", case)
+                how = ":witness-program-read-as-p2ms" if kind == "anyaddr" and p2ms_lookalike(got[0]) else ""
+                ctx.violation(f"{kind}:reencode-raised{how}", f"{raw!r} decoded but writing it back raised {ro[1]!r}", case)
             elif ro[1] is not None:
                 ctx.mon(f"reencode:{kind}")
                 if ro[1][0] != ro[1][1]:
@@ -774,6 +775,13 @@ def shard_grid(ctx: Ctx) -> None:
                             judge(j, "segwit", s)
                             judge(j, "anyaddr", s)
                             ctx.bulk("grid:padding", 2)
+        # witness programs that end like a multisig script: decoded, then written back through address()
+        for net in ra.NETWORK_NAMES:
+            for ver, n_, ln in ((1, 1, 40), (1, 16, 35), (2, 3, 36), (16, 16, 40), (5, 4, 38)):
+                s = r32.segwit_encode(nd.value(net, "hrp"), ver, _hash_classes(rng, ln - 2) + bytes([0x50 + n_, 0xAE]))
+                judge(j, "segwit", s)
+                judge(j, "anyaddr", s)
+                ctx.bulk("grid:p2ms-lookalike-program", 2)
         # length cap: 90 characters is the last accepted length (only reachable with a long HRP: judged on bech32 level)
     ctx.exhaustive.append("segwit addresses: witness version 0..17,31 x program length 0..42 x bech32/bech32m x five networks")
     ctx.sample("grid", {"versions": versions, "lengths": "0..42", "networks": list(ra.NETWORK_NAMES)})
@@ -1053,6 +1061,12 @@ def shard_bech32codec(ctx: Ctx) -> None:
 
 
 # ------------------------------------------------------------- inverse maps
+def p2ms_lookalike(spk: bytes) -> bool:
+    """A witness program whose last two bytes read OP_n OP_CHECKMULTISIG with version <= n (what a p2ms test looks at first)."""
+    return len(spk) >= 37 and spk[-1] == 0xAE and 0x51 <= spk[0] <= 0x60 and spk[0] <= spk[-2] <= 0x60 and \
+        ra.witness_program(spk) is not None
+
+
 def _h160(b: bytes) -> bytes:
     return hashlib.new("ripemd160", hashlib.sha256(b).digest()).digest()
 
@@ -1077,6 +1091,9 @@ def shard_inverse(ctx: Ctx) -> None:
             for ln in (2, 3, 20, 31, 32, 33, 39, 40, rng.randrange(2, 41)):
                 yield "future-witness", ra.spk_witness(ver, _hash_classes(rng, ln))
         yield "p2a", bytes.fromhex("51024e73")
+        # witness programs that end like a multisig script (OP_n OP_CHECKMULTISIG)
+        for ver, n_, ln in ((1, 1, 40), (1, 16, 35), (2, 3, 36), (16, 16, 40), (5, 4, 38), (1, 2, 34)):
+            yield "future-witness:p2ms-lookalike", ra.spk_witness(ver, _hash_classes(rng, ln - 2) + bytes([0x50 + n_, 0xAE]))
         # witness-like scripts that are not witness programs
         for ver in (0, 1, 16):
             for ln in (0, 1, 41, 42, 75):
@@ -1131,14 +1148,16 @@ def shard_inverse(ctx: Ctx) -> None:
                 if typ is None and lt in addressable:
                     ctx.violation(f"inverse:non-addressable-classified:{klass.split(':')[0]}", f"type_and_payload({spk.hex()}) = {lt!r}; the reference finds no destination", {"script": spk})
             elif typ is not None:
-                ctx.violation("inverse:classification-raised", f"type_and_payload({spk.hex()}) raised {o[1]!r}", {"script": spk})
+                tag = "inverse:classification-raised" + (":witness-program-read-as-p2ms" if p2ms_lookalike(spk) else "")
+                ctx.violation(tag, f"type_and_payload({spk.hex()}) raised {o[1]!r}", {"script": spk})
             for net in ra.NETWORK_NAMES:
                 want = ra.address_of_script(nd, spk, net)
                 case = {"script": spk, "network": net, "class": klass}
                 o = outcome(L.spk.address, spk, net)
                 ctx.mon("inverse:address")
                 if o[0] == "raise":
-                    ctx.violation("inverse:address-raised", f"address({spk.hex()}, {net}) raised {o[1]!r}; reference {want!r}", case)
+                    tag = "inverse:address-raised" + (":witness-program-read-as-p2ms" if p2ms_lookalike(spk) else "")
+                    ctx.violation(tag, f"address({spk.hex()}, {net}) raised {o[1]!r}; reference {want!r}", case)
                     continue
                 if o[1] != want:
                     tag = "inverse:non-addressable-script-got-address" if not want else \
